@@ -505,6 +505,7 @@ type FuncContract struct {
 	Trusted  bool
 	Inline   bool
 	Reads    []ReadClause
+	Calls    map[string][]string // function-valued parameter -> candidate callees
 	Fuel     int
 	Ghost    []string
 	Props    map[string]bool // for pinned blocks
@@ -534,7 +535,7 @@ var clauseKeywords = map[string]bool{
 	"func": true, "cases": true, "requires": true, "ensures": true, "modifies": true,
 	"panics": true, "pure": true, "loop": true, "invariant": true, "decreases": true,
 	"assert": true, "use": true, "let": true, "mode": true, "trusted": true, "assumes": true,
-	"classes": true, "property": true, "inline": true, "coarse": true, "assume": true, "reads": true, "wraps": true, "fuel": true, "unroll": true,
+	"classes": true, "property": true, "inline": true, "coarse": true, "assume": true, "reads": true, "wraps": true, "fuel": true, "unroll": true, "calls": true,
 }
 
 type rawLine struct {
@@ -640,6 +641,18 @@ func parseContractLines(lines []rawLine, pkg string) ([]*FuncContract, error) {
 				for _, x := range strings.Split(rest, ",") {
 					cur.Modifies = append(cur.Modifies, strings.TrimSpace(x))
 				}
+			}
+		case "calls":
+			// calls round in {Round15, Round12}
+			parts := strings.SplitN(rest, " in ", 2)
+			if len(parts) != 2 {
+				return nil, fmt.Errorf("%s:%d: bad calls clause", l.file, l.line)
+			}
+			if cur.Calls == nil {
+				cur.Calls = map[string][]string{}
+			}
+			for _, x := range strings.Split(strings.Trim(strings.TrimSpace(parts[1]), "{}"), ",") {
+				cur.Calls[strings.TrimSpace(parts[0])] = append(cur.Calls[strings.TrimSpace(parts[0])], strings.TrimSpace(x))
 			}
 		case "fuel":
 			fmt.Sscanf(rest, "%d", &cur.Fuel)
